@@ -118,3 +118,60 @@ theorem step_noSlash (s : State) (op : Op) (hne : op.isEndblock = false) (hnr : 
       | _ => exact noSlash_nil
 
 end SM
+
+namespace SM
+open Map
+
+/-- effects that only move or destroy coins -/
+def Effect.isMoney : Effect → Bool
+  | .transfer .. => true
+  | .xferFail .. => true
+  | .slash .. => true
+  | _ => false
+
+theorem expireReq_effects (x : Ctx) (s : State) (r : ReqId) : ∀ e ∈ (expireReq x s r).effs, e.isMoney = true := by
+  unfold expireReq
+  cases hq : get s.reqs r with
+  | none => intro e he; cases he
+  | some q =>
+    dsimp only
+    split; · intro e he; cases he
+    have hre : ∀ (s1 : State) (e1 : List Effect), (∀ e ∈ e1, e.isMoney = true) →
+        ∀ e ∈ (refundExpired s1 e1 x q r).effs, e.isMoney = true := by
+      intro s1 e1 h1 e he
+      unfold refundExpired at he
+      split at he
+      · simp only [List.mem_append] at he
+        rcases he with he | he
+        · exact h1 e he
+        · split at he
+          · cases he
+          · simp only [List.mem_singleton] at he; subst he; rfl
+      · simp only [List.mem_append, List.mem_singleton] at he
+        rcases he with he | he
+        · exact h1 e he
+        · subst he; rfl
+    cases hs : slash s r x.svc q.prov with
+    | overflow => intro e he; cases he
+    | bankErr => exact hre s [] (fun e he => by cases he)
+    | done s1 e1 =>
+      obtain ⟨n, he1⟩ := slash_effects hs
+      subst he1
+      exact hre s1 _ (fun e he => by simp only [List.mem_singleton] at he; subst he; rfl)
+
+theorem foldH_effects {α : Type} (hd : State → α → HRes) (P : Effect → Prop) (hk : ∀ s a, ∀ e ∈ (hd s a).effs, P e) :
+    ∀ (l : List α) (s : State), ∀ e ∈ (foldH hd s l).effs, P e := by
+  intro l
+  induction l with
+  | nil => intro s e he; cases he
+  | cons a t ih =>
+    intro s e he
+    rw [foldH_cons] at he
+    split at he
+    · exact hk s a e he
+    · simp only [List.mem_append] at he
+      rcases he with he | he
+      · exact hk s a e he
+      · exact ih _ e he
+
+end SM
